@@ -54,6 +54,17 @@ def main():
         pid = p["id"]
         if pid in CHECKS:
             cat, tech, text, ref = CHECKS[pid]
+            if pid in ("C01", "C02", "C03", "C04", "C06", "C07", "C08", "C09", "C10", "C12", "C13"):
+                text += (" Also: the same driver on a second declaration shape of the harness world (other declaration order, ids 0/7/8/9, "
+                         "reversed column lists so that shared components sit at different column positions, a 9-column archetype), with "
+                         "packed 17/19-byte and 4 KiB components, quiet bursts without intermediate observation, partially consumed "
+                         "iterators, archetype-level clone_from with faults.")
+            if pid in ("C06", "C07"):
+                text += " Also: every MatchMC program through the real generators (a wrong matched set of a loop macro counts against this property)."
+            if pid in ("C03", "C04", "C10"):
+                text += " Thorough tier: short histories of the driver under the Miri interpreter."
+            if pid == "C16":
+                text += " Also: same-name alternatives (two archetypes, or two components of one archetype, carrying the same name under exclusive predicates)."
             checks.append({
                 "property_id": pid,
                 "quick_cmd": "bin/check %s --tier quick" % pid,
